@@ -648,7 +648,7 @@ STANDINS = {
     'batch_normalization': (refute_batch, "CurveProjective::batch_normalization (iterator adaptor chains: outside the Verus subset): every mix and order of identity / normalized / general representatives, up to 5 points"),
     'wnaf_contexts_precomp_3': (refute_scalar_paths, "Wnaf context methods with reuse histories (type-state wrappers over AsRef/AsMut) and precomp_3 / mul_precomp_3: structured scalars (0, 1, word and chunk boundaries, r-1, r, 2^255-1), both staging orders, table sizes for 1 / 5 / 100000 scalars"),
     'expand_message_hash_to_field': (refute_expand, "ExpandMsgXmd / ExpandMsgXof / hash_to_field (generic Digest chains and closures: outside the Verus subset) against hashlib: tag lengths 0, 1, 27, 254, 255; output lengths around every block boundary and the 255-block limit (abort expected beyond it); element counts 0..5"),
-    'sum_of_products': (refute_msm, "sum_of_products / sum_of_products_pippinger (windows 1..20) / sum_of_products_precomp_256: empty input, duplicates, inverse pairs, identity points, zero scalars, mismatched lengths, scalars with bits at word boundaries and 2^255-1"),
+    'sum_of_products': (refute_msm, "(also under contract in unit msm; kept as an end-to-end cross-check through the compiled point formulas) sum_of_products / sum_of_products_pippinger (windows 1..20) / sum_of_products_precomp_256: empty input, duplicates, inverse pairs, identity points, zero scalars, mismatched lengths, scalars with bits at word boundaries and 2^255-1"),
     'encoders_api': (lambda binp: refute_encode(binp), "into_compressed / into_uncompressed through the public API on random points, both roots, small x, y in Fq / purely imaginary, the identity, with non-trivial Z"),
 }
 
